@@ -57,7 +57,10 @@ Ones(arr, shape, cfg, ks, p) == Cardinality({ q \in Box(p, ks) : PadVal(arr, sha
 Majority(arr, shape, cfg, ks, p) == IF 2 * Ones(arr, shape, cfg, ks, p) > Volume(ks) THEN 1 ELSE 0
 MedianOnce(arr, shape, cfg, ks) == [ p \in Positions(shape) |-> Majority(arr, shape, cfg, ks, p) ]
 RECURSIVE MedianTimes(_, _, _, _, _)
-MedianTimes(arr, shape, cfg, ks, r) == IF r = 0 THEN arr ELSE MedianTimes(MedianOnce(arr, shape, cfg, ks), shape, cfg, ks, r - 1)
+\* (TLC note: "a \in {expr}" evaluates the intermediate array once instead of at every use of the argument)
+MedianTimes(arr, shape, cfg, ks, r) ==
+    IF r = 0 THEN arr
+    ELSE CHOOSE res \in { MedianTimes(a, shape, cfg, ks, r - 1) : a \in { MedianOnce(arr, shape, cfg, ks) } } : TRUE
 
 \* ---------- the implementation's way ----------
 \* extended array: [lo, hi : coordinate ranges per axis, f : values]
